@@ -517,7 +517,7 @@ pub struct HistOut {
 
 /// Runs one model to closure, records faults into `ctx`, then performs the
 /// C20 pass over the closed state set.
-fn run_model<R: HistRep>(prop: &str, m: HModel<R>, threads: usize, ctx: &mut Ctx, pairs_pass: bool) -> HistOut {
+fn run_model<R: HistRep>(prop: &str, m: HModel<R>, threads: usize, ctx: &mut Ctx, pairs_pass: bool) -> (HistOut, Vec<(R, Abs)>) {
     let label = m.label.clone();
     let m = Arc::new(m);
     // stateright takes the model by value; share counters through Arc by wrapping
@@ -576,6 +576,7 @@ fn run_model<R: HistRep>(prop: &str, m: HModel<R>, threads: usize, ctx: &mut Ctx
         concrete_states: 0,
         pair_checks: 0,
     };
+    let mut collected: Vec<(R, Abs)> = Vec::new();
     if m.collect {
         let seen = m.seen.lock().unwrap();
         let abstracts: BTreeSet<&Abs> = seen.values().map(|(_, a)| a).collect();
@@ -649,8 +650,64 @@ fn run_model<R: HistRep>(prop: &str, m: HModel<R>, threads: usize, ctx: &mut Ctx
             }
             beat_end();
         }
+        collected = seen.values().cloned().collect();
     }
-    out
+    (out, collected)
+}
+
+/// Cross-model pass of C20: digraphs of one representation taken from closures of DIFFERENT
+/// orders (different vertex sets) must never compare equal, whatever their arcs; cmp must be
+/// non-Equal, antisymmetric and agree with partial_cmp.
+fn cross_pass<R: HistRep>(groups: &[Vec<(R, Abs)>], ctx: &mut Ctx) -> u64 {
+    let mut checks = 0u64;
+    for (gi, ga) in groups.iter().enumerate() {
+        for (gj, gb) in groups.iter().enumerate() {
+            if gi == gj {
+                continue;
+            }
+            for (i, (a, aa)) in ga.iter().enumerate() {
+                if i % 64 == 0 {
+                    beat_begin(R::NAME, "cross-order pairs", aa, None);
+                }
+                for (b, ab) in gb {
+                    if aa.v == ab.v {
+                        continue;
+                    }
+                    checks += 1;
+                    let eq = a == b;
+                    let ord = a.cmp(b);
+                    let bad = if eq {
+                        Some("== is true but the vertex sets differ".to_string())
+                    } else if ord == std::cmp::Ordering::Equal {
+                        Some("cmp is Equal but the vertex sets differ".to_string())
+                    } else if ord != b.cmp(a).reverse() {
+                        Some("cmp is not antisymmetric".to_string())
+                    } else if a.partial_cmp(b) != Some(ord) {
+                        Some("partial_cmp disagrees with cmp".to_string())
+                    } else if (a != b) == eq {
+                        Some("!= is not the negation of ==".to_string())
+                    } else {
+                        None
+                    };
+                    if let Some(b2) = bad {
+                        ctx.fail_count += 1;
+                        if ctx.fails.len() < 8 {
+                            ctx.fails.push(Fail {
+                                case: CaseId { kind: "post:hist.c20x".into(), p: vec![R::ID], idx: 0 },
+                                what: format!("{}: digraphs of different orders: {b2}", R::NAME),
+                                known: None,
+                                detail: json!({"lhs": aa.arcs_json(), "rhs": ab.arcs_json(), "lhs_internal": format!("{a:?}"), "rhs_internal": format!("{b:?}")}),
+                            });
+                        }
+                        beat_end();
+                        return checks;
+                    }
+                }
+            }
+        }
+    }
+    beat_end();
+    checks
 }
 
 fn fixed_inits<R: HistRep>(n: usize, extra: bool) -> Vec<(String, R, Abs)> {
@@ -704,13 +761,21 @@ pub fn run_all(prop: &'static str, tier: &str, ctx: &mut Ctx) -> Value {
     let mut tot_trans = 0u64;
     let mut tot_pairs = 0u64;
     let mut nontrivial = 0u64;
+    let mut g_al: Vec<Vec<(AL, Abs)>> = Vec::new();
+    let mut g_ax: Vec<Vec<(AX, Abs)>> = Vec::new();
+    let mut g_el: Vec<Vec<(EL, Abs)>> = Vec::new();
+    let mut g_wu: Vec<Vec<(WU, Abs)>> = Vec::new();
+    let mut g_wi: Vec<Vec<(WI, Abs)>> = Vec::new();
     macro_rules! fixed {
-        ($t:ty, $n:expr, $weights:expr, $collect:expr) => {{
+        ($t:ty, $n:expr, $weights:expr, $collect:expr, $g:ident) => {{
             let n: usize = $n;
             let ids: Vec<usize> = (0..n + 2).collect();
             let ws: &[i64] = $weights;
             let m = model_for::<$t>(&format!("order {n}, ids 0..={}, weights {:?}", n + 1, ws), fixed_inits::<$t>(n, true), ids.clone(), all_pairs(&ids), ws, $collect);
-            let o = run_model::<$t>(prop, m, threads, ctx, pairs_pass && $collect);
+            let (o, items) = run_model::<$t>(prop, m, threads, ctx, pairs_pass && $collect);
+            if !items.is_empty() {
+                $g.push(items);
+            }
             tot_states += o.states;
             tot_trans += o.transitions;
             tot_pairs += o.pair_checks;
@@ -719,17 +784,17 @@ pub fn run_all(prop: &'static str, tier: &str, ctx: &mut Ctx) -> Value {
         }};
     }
     for n in 1..=4 {
-        fixed!(AL, n, &[], true);
-        fixed!(AX, n, &[], true);
-        fixed!(EL, n, &[], true);
+        fixed!(AL, n, &[], true, g_al);
+        fixed!(AX, n, &[], true, g_ax);
+        fixed!(EL, n, &[], true, g_el);
     }
     for n in 1..=3 {
-        fixed!(WU, n, &[1, 2], n <= 2 || true);
-        fixed!(WI, n, &[-1, 2], n <= 2);
+        fixed!(WU, n, &[1, 2], true, g_wu);
+        fixed!(WI, n, &[-1, 2], true, g_wi);
     }
     if thorough {
-        fixed!(WU, 3, &[1, 2, 3], false);
-        fixed!(WU, 4, &[1, 2], false);
+        fixed!(WU, 3, &[1, 2, 3], false, g_wu);
+        fixed!(WU, 4, &[1, 2], false, g_wu);
     }
     // AdjacencyMap: V grows with add_arc; ids from a pool with a gap
     {
@@ -737,7 +802,7 @@ pub fn run_all(prop: &'static str, tier: &str, ctx: &mut Ctx) -> Value {
         let mut inits: Vec<(String, AM, Abs)> = vec![("empty(1)".into(), AM::empty(1), Abs::empty(1)), ("empty(2)".into(), AM::empty(2), Abs::empty(2))];
         inits.extend(AM::extra_inits(3));
         let m = model_for::<AM>(&format!("ids from {pool:?}, V grows"), inits, pool.clone(), all_pairs(&pool), &[], pool.len() <= 4);
-        let o = run_model::<AM>(prop, m, threads, ctx, pool.len() <= 4);
+        let (o, _) = run_model::<AM>(prop, m, threads, ctx, pool.len() <= 4);
         tot_states += o.states;
         tot_trans += o.transitions;
         tot_pairs += o.pair_checks;
@@ -747,7 +812,7 @@ pub fn run_all(prop: &'static str, tier: &str, ctx: &mut Ctx) -> Value {
     if thorough {
         let ids: Vec<usize> = (0..6).collect();
         let m = model_for::<AM>("contiguous order 4, ids 0..=5", vec![("empty(4)".into(), AM::empty(4), Abs::empty(4))], ids.clone(), all_pairs(&[0, 1, 2, 3]), &[], false);
-        let o = run_model::<AM>(prop, m, threads, ctx, false);
+        let (o, _) = run_model::<AM>(prop, m, threads, ctx, false);
         tot_states += o.states;
         tot_trans += o.transitions;
         nontrivial += o.rejected + o.noop;
@@ -763,20 +828,24 @@ pub fn run_all(prop: &'static str, tier: &str, ctx: &mut Ctx) -> Value {
             s.into_iter().collect()
         };
         let m = model_for::<AX>(&format!("order {n}, window {pairs:?}"), fixed_inits::<AX>(n, true), ids, pairs, &[], true);
-        let o = run_model::<AX>(prop, m, threads, ctx, true);
+        let (o, items) = run_model::<AX>(prop, m, threads, ctx, true);
+        g_ax.push(items);
         tot_states += o.states;
         tot_trans += o.transitions;
         tot_pairs += o.pair_checks;
         nontrivial += o.rejected + o.noop;
         outs.push(json!({"rep": AX::NAME, "closure": hist_json(&o)}));
     }
+    // digraphs of different orders never compare equal (closed state sets of different models)
+    let cross = cross_pass(&g_al, ctx) + cross_pass(&g_ax, ctx) + cross_pass(&g_el, ctx) + cross_pass(&g_wu, ctx) + cross_pass(&g_wi, ctx);
+    tot_pairs += cross;
     ctx.cases += tot_states;
     ctx.execs += tot_trans + tot_pairs;
     ctx.nontrivial_cases += nontrivial.min(tot_trans);
     if ctx.samples.is_empty() {
         ctx.samples.push(json!({"history_example": ["add_arc(0,1)", "add_arc(0,1)", "remove_arc(0,1)", "add_arc(1,1) -> rejected", "toggle(2,0)"], "note": "every reachable state × every action of the alphabet is executed; see coverage.closures"}));
     }
-    json!({"closures": outs, "closure_states_total": tot_states, "closure_transitions_total": tot_trans, "pairwise_checks_total": tot_pairs})
+    json!({"closures": outs, "closure_states_total": tot_states, "closure_transitions_total": tot_trans, "pairwise_checks_total": tot_pairs, "cross_order_pair_checks": cross})
 }
 
 pub fn c01(tier: &str, seed: u64) -> Check {
@@ -797,7 +866,7 @@ pub fn c20(tier: &str, seed: u64) -> Check {
         "C20",
         tier,
         seed,
-        "explicit-state closure as in C01 (same models, same transition function) followed by a pass over the closed state set: (a) the number of distinct internal values (Debug rendering) equals the number of distinct abstract digraphs — one concrete value per abstract digraph whatever history (adds, removes, toggles, generators, operators, conversions, From iterators) reached it; (b) for EVERY ordered pair of closed states: == iff same (V,A,w), cmp == Equal iff ==, antisymmetry, partial_cmp = cmp, equal ⇒ equal DefaultHasher output; (c) every transition is applied to a clone and the original is compared before/after; (d) is_complete() on every closed state. distinct_nontrivial as in C01.",
+        "explicit-state closure as in C01 (same models, same transition function) followed by a pass over the closed state set: (a) the number of distinct internal values (Debug rendering) equals the number of distinct abstract digraphs — one concrete value per abstract digraph whatever history (adds, removes, toggles, generators, operators, conversions, From iterators) reached it; (b) for EVERY ordered pair of closed states: == iff same (V,A,w), cmp == Equal iff ==, antisymmetry, partial_cmp = cmp, equal ⇒ equal DefaultHasher output; (c) every transition is applied to a clone and the original is compared before/after; (d) is_complete() on every closed state; (e) for every ordered pair of closed states taken from closures of DIFFERENT orders of one representation (orders 1..=4 and the AdjacencyMatrix windows): == is false, cmp is not Equal, antisymmetric, and agrees with partial_cmp. distinct_nontrivial as in C01.",
         &["orders ≤ 3 (4 thorough) plus AdjacencyMatrix windows and the AdjacencyMap id pool", "Hash is compared through DefaultHasher only"],
         json!({"max_order": 4}),
     );
